@@ -447,6 +447,93 @@ def percolate_job_replay(params, inputs):
     return True, 'ok'
 
 
+def percolate_layout_job(params):
+    """Percolation over several peaks on a grid with a *concrete* layout of blocked voxels (>= 1e7) and symbolic energies on the
+    passable ones: a conducting channel and an isolated pocket, peaks supplied in a given order."""
+    shape, percolate = tuple(params['shape']), params['percolate']
+    passable = [tuple(v) for v in params['passable']]
+    peaks_l = [tuple(v) for v in params['peaks']]
+    dirs = [1 if c in percolate else 0 for c in 'xyz']
+    tshape = tuple(shape[i] * (1 + dirs[i]) for i in range(3))
+    BIG = 2 * 10 ** 7
+
+    def body():
+        with Patches() as p:
+            gp, gv, proxy = _patch(p)
+            e = S([sym_real('e_' + '_'.join(map(str, idx)), 0, 1) if idx in passable else BIG for idx in np.ndindex(shape)]).reshape(shape)
+            fe = gv.FreeEnergyVolume(data=e, lattice=None)
+            try:
+                path = fe.optimal_percolating_path(peaks=np.array(peaks_l), percolate=percolate)
+            except Exception as ex:
+                event(f'exception:{type(ex).__name__}', detail=str(ex)[:200])
+                return
+            tiled = S(np.tile(np.asarray(e), tuple(1 + d for d in dirs)))
+            tpass = {v for v in np.ndindex(tshape) if tuple(v[c] % shape[c] for c in range(3)) in passable}
+            full = adjacency(tshape, ALL26)
+            adj = {u: {v for v in full[u] if v in tpass} for u in tpass}
+            best = []
+            for s_ in peaks_l:
+                t_ = tuple(s_[i] + shape[i] * dirs[i] for i in range(3))
+                best.append((s_, t_, simple_paths(adj, s_, t_) if s_ in tpass else []))
+            if path is None:
+                prove('None only when no supplied peak percolates', all(len(b[2]) == 0 for b in best))
+                return
+            sites = [tuple(int(c) for c in v) for v in path.sites]
+            prove('percolating path connects a supplied peak to its periodic image one cell away along each requested axis',
+                  any(sites[0] == b[0] and sites[-1] == b[1] for b in best))
+            prove('steps between neighbouring passable voxels', all(b_ in adj.get(a_, ()) for a_, b_ in zip(sites, sites[1:])))
+            mine = core.ssum([tiled[v] for v in sites])
+            prove('total_energy = sum of voxel energies', path.total_energy == mine)
+            # cheapest over all supplied peaks: against the weight-optimal path of every peak (GEMDAT compares the summed voxel
+            # energies of the per-peak weight-optimal paths)
+            for (s_, t_, paths) in best:
+                if not paths:
+                    continue
+                w = [core.ssum([(tiled[a_] + tiled[b_]) / 2 for a_, b_ in zip(q, q[1:])]) for q in paths]
+                for i, q in enumerate(paths):
+                    is_opt = conj([w[i] <= wj for wj in w])
+                    strictly = conj([w[i] < wj for j, wj in enumerate(w) if j != i])
+                    prove('no supplied peak has a cheaper percolating path',
+                          implies(strictly, mine <= core.ssum([tiled[v] for v in q])))
+            ws = path.wrapped_sites()
+            for i, v in enumerate(sites):
+                prove('wrapped voxel inside the original grid', tuple(ws[i]) == tuple(v[c] % shape[c] for c in range(3)))
+            sample(dict(shape=list(shape), peaks=[list(v) for v in peaks_l], path=[list(v) for v in sites]))
+
+    return symbolic_job(params, body, percolate_layout_replay)
+
+
+def percolate_layout_replay(params, inputs):
+    import gemdat.volume as gv
+    shape, percolate = tuple(params['shape']), params['percolate']
+    passable = [tuple(v) for v in params['passable']]
+    peaks_l = [tuple(v) for v in params['peaks']]
+    dirs = [1 if c in percolate else 0 for c in 'xyz']
+    tshape = tuple(shape[i] * (1 + dirs[i]) for i in range(3))
+    e = np.array([float(inputs['e_' + '_'.join(map(str, idx))]) if idx in passable else 2e7 for idx in np.ndindex(shape)]).reshape(shape)
+    fe = gv.FreeEnergyVolume(data=e, lattice=None)
+    path = fe.optimal_percolating_path(peaks=np.array(peaks_l), percolate=percolate)
+    tpass = {v for v in np.ndindex(tshape) if tuple(v[c] % shape[c] for c in range(3)) in passable}
+    full = adjacency(tshape, ALL26)
+    adj = {u: {v for v in full[u] if v in tpass} for u in tpass}
+    tiled = np.tile(e, tuple(1 + d for d in dirs))
+    costs = []
+    for s_ in peaks_l:
+        t_ = tuple(s_[i] + shape[i] * dirs[i] for i in range(3))
+        ps = simple_paths(adj, s_, t_) if s_ in tpass else []
+        if ps:
+            q = min(ps, key=lambda q: sum(0.5 * (tiled[a] + tiled[b]) for a, b in zip(q, q[1:])))
+            costs.append(sum(tiled[v] for v in q))
+    desc = f'shape={shape} passable={passable} peaks={peaks_l} e={e.tolist()}'
+    if path is None:
+        return (not costs), f'None returned although a supplied peak percolates (cheapest cost {min(costs) if costs else None}); {desc}'
+    if not costs:
+        return False, f'path returned although no peak percolates; {desc}'
+    if path.total_energy > min(costs) + 1e-9:
+        return False, f'returned path costs {path.total_energy}, a supplied peak percolates at cost {min(costs)}; {desc}'
+    return True, 'ok'
+
+
 # --------------------------------------------------------------------------- wrapped_sites / frac_sites on arbitrary sites
 
 
@@ -513,7 +600,8 @@ def realnx_job(params):
     return symbolic_job(params, body, None, split=tuple(sp) if sp else None, max_paths=200000)
 
 
-REPLAYS = dict(graph_job=graph_job_replay, path_job=path_job_replay, percolate_job=percolate_job_replay, wrap_job=wrap_job_replay)
+REPLAYS = dict(graph_job=graph_job_replay, path_job=path_job_replay, percolate_job=percolate_job_replay, wrap_job=wrap_job_replay,
+               percolate_layout_job=percolate_layout_replay)
 METHODS = ['dijkstra', 'bellman-ford', 'dijkstra-exp', 'simple', 'minmax-energy']
 
 
@@ -544,6 +632,11 @@ def jobs(tier, seed):
                            params=dict(shape=list(shape), diagonal=diag, method=m)))
     for shape, pc, k in perc:
         js.append(dict(name=f'percolate_{"x".join(map(str, shape))}_{pc}_{k}peaks', fn='percolate_job', params=dict(shape=list(shape), percolate=pc, npeaks=k)))
+    chan = [[0, 0, 0], [1, 0, 0], [2, 0, 0], [1, 2, 0]]   # conducting channel along x (row y=0) + isolated pocket (1,2,0) on a 3x4x1 grid
+    for tag, peaks in (('pocket_first', [[1, 2, 0], [0, 0, 0]]), ('pocket_last', [[2, 0, 0], [1, 2, 0]]), ('pocket_only', [[1, 2, 0]]),
+                       ('two_channel_peaks', [[0, 0, 0], [1, 0, 0]])):
+        js.append(dict(name=f'percolate_layout_3x4x1_{tag}', fn='percolate_layout_job',
+                       params=dict(shape=[3, 4, 1], percolate='x', passable=chan, peaks=peaks)))
     js.append(dict(name='graph_3x3x3_diag_allpassable', fn='graph_job', params=dict(shape=[3, 3, 3], diagonal=True, free='passable')))
     js.append(dict(name='wrapped_sites', fn='wrap_job', params={}))
     if tier != 'quick':
